@@ -3,7 +3,9 @@
 
 Reads /repo's sources with the `ast` module only (never imports or runs them), extracts the data
 tables the Coq models quantify over and writes them as Coq text to <outdir>/Tables.v.
-Fail-closed: any node whose shape is not exactly the expected one aborts with exit status 2.
+Fail-closed per section: any node whose shape is not exactly the expected one fails its section
+(exit status 3, the section's last recorded text is emitted and the section is listed in
+<outdir>/t1_status.json); exit status 2 when nothing can be produced.
 Files are only rewritten when their content changes (so an unchanged tree costs no rebuild)."""
 import ast, os, sys, io
 
@@ -156,11 +158,11 @@ def fmt_kind(mod, fname):
 
 
 # ---------------------------------------------------------------- the tables
-def gen_tables(repo):
-    out = io.StringIO()
-    out.write("(* GENERATED by /verif/translate/t1_tables.py from %s/src/bumpver -- do not edit. *)\n" % repo)
-    out.write("From Coq Require Import List NArith.\nFrom BV Require Import Lib.Types.\nImport ListNotations.\nLocal Open Scope N_scope.\n\n")
+HEADER = ("(* GENERATED by /verif/translate/t1_tables.py from the working tree's src/bumpver -- do not edit. *)\n"
+          "From Coq Require Import List NArith.\nFrom BV Require Import Lib.Types.\nImport ListNotations.\nLocal Open Scope N_scope.\n\n")
 
+
+def gen_core(repo, out):
     v2p = parse_file(repo, "v2patterns.py")
     emit_pairs(out, "PART_PATTERNS", ordered_dict(top_assign(v2p, "PART_PATTERNS")), "v2patterns.PART_PATTERNS (order preserved)")
     emit_pairs(out, "PATTERN_PART_FIELDS", dict_items(top_assign(v2p, "PATTERN_PART_FIELDS")), "v2patterns.PATTERN_PART_FIELDS")
@@ -182,12 +184,32 @@ def gen_tables(repo):
     cli = parse_file(repo, "cli.py")
     emit_strs(out, "VALID_RELEASE_TAG_VALUES", str_seq(top_assign(cli, "VALID_RELEASE_TAG_VALUES")), "cli.VALID_RELEASE_TAG_VALUES")
 
-    for extra in EXTRA_GENERATORS:
-        extra(repo, out)
-    return out.getvalue()
+
+# (section name, generator).  Sections are extracted independently: when one can no longer be read
+# (fail-closed), its last recorded text (translate/last_good/<section>.v, committed, only rewritten by
+# `t1_tables.py --record`) is emitted instead so that the rest of the development still builds, and
+# the section is reported as failed; the checks of the properties that rest on it then report a
+# broken obligation, the other properties are not affected.
+SECTIONS = [("core", gen_core)]
+EXTRA_GENERATORS = SECTIONS   # historical name used by t1_more / t1_calls: they append (name, fn)
+LAST_GOOD = os.path.join(os.path.dirname(os.path.abspath(__file__)), "last_good")
 
 
-EXTRA_GENERATORS = []
+def gen_sections(repo):
+    """-> (list of (name, text), {failed section: message})"""
+    texts, failed = [], {}
+    for name, fn in SECTIONS:
+        buf = io.StringIO()
+        try:
+            fn(repo, buf)
+            texts.append((name, buf.getvalue()))
+        except (Unsupported, SyntaxError, OSError, AttributeError, IndexError, KeyError, TypeError, ValueError) as ex:
+            failed[name] = "%s: %s" % (type(ex).__name__, ex)
+            lg = os.path.join(LAST_GOOD, name + ".v")
+            if not os.path.exists(lg):
+                raise Unsupported("section %s failed (%s) and has no recorded text" % (name, ex))
+            texts.append((name, "(* SECTION %s COULD NOT BE EXTRACTED: last recorded text *)\n" % name + open(lg, encoding="utf-8").read()))
+    return texts, failed
 
 
 def write_if_changed(path, text):
@@ -201,14 +223,29 @@ def write_if_changed(path, text):
 
 
 def main():
-    repo, outdir = sys.argv[1], sys.argv[2]
+    import json
+    args = [a for a in sys.argv[1:] if a != "--record"]
+    record = "--record" in sys.argv[1:]
+    repo, outdir = args[0], args[1]
     try:
-        import t1_more  # noqa: F401  (registers further generators)
-        text = gen_tables(repo)
+        import t1_more  # noqa: F401  (registers further sections)
+        texts, failed = gen_sections(repo)
     except (Unsupported, SyntaxError, OSError) as ex:
         print("T1 FAIL-CLOSED: %s" % ex)
         return 2
-    changed = write_if_changed(os.path.join(outdir, "Tables.v"), text)
+    if record:
+        if failed:
+            print("T1: cannot record, failed sections: %s" % failed)
+            return 2
+        os.makedirs(LAST_GOOD, exist_ok=True)
+        for name, text in texts:
+            write_if_changed(os.path.join(LAST_GOOD, name + ".v"), text)
+    changed = write_if_changed(os.path.join(outdir, "Tables.v"), HEADER + "".join(t for _, t in texts))
+    write_if_changed(os.path.join(outdir, "t1_status.json"), json.dumps(dict(failed=failed, sections=[n for n, _ in texts]), indent=1))
+    if failed:
+        for k, v in failed.items():
+            print("T1 FAIL-CLOSED section %s: %s" % (k, v))
+        return 3
     print("T1 ok (%s)" % ("Tables.v rewritten" if changed else "unchanged"))
     return 0
 
